@@ -72,6 +72,43 @@ def run(chk, scratch):
                     count_traces=lambda evs: sum(1 for e in evs if e.get("op") == "New"))
     tr, _ = common.record(vh, scratch, "c12", "par.ndjson", chk.seed, chk.tier, mode="record-parallelise", n=(2000 if thorough else 150))
     common.validate(chk, scratch, SPEC, "ParalleliseTrace", "ParalleliseTrace.cfg", tr, "Parallelise calls", sig_of=sig_par, count_traces=len)
+    # 4. growth beyond the listed property: RunActionWithParallelCheck (ParallelCheck.tla) replayed on the real function
+    common.model_check(chk, scratch, SPEC, "ParallelCheck", "ParallelCheck.cfg", "ParallelCheck as coded: failing check x parent cancellation x action length/behaviour (safety + liveness)", workers=2, fast="tiny")
+    rn = vlib.run_tlc(scratch, [SPEC], "ParallelCheck", "ParallelCheck_nostop.cfg", workers=2, timeout=300, fast="tiny", parse_behaviours=False)
+    vlib.tlc_must_pass(rn, "ParallelCheck_nostop")
+    chk.add_tlc("ParallelCheck with a checker that ignores its context (must violate NoCheckAfterStop)", rn)
+    if rn.violated != "NoCheckAfterStop":
+        raise vlib.Inconclusive("sensitivity self-test failed: ParallelCheck_nostop.cfg reported %s" % rn.violated)
+    pcb = common.emit_behaviours(chk, scratch, SPEC, "ParallelCheck", "ParallelCheck.cfg", "emit ParallelCheck scenarios", fast="tiny")
+    inp = os.path.join(scratch, "c12-parcheck.ndjson")
+    vlib.write_ndjson(inp, pcb)
+    ptr = os.path.join(scratch, "c12-parcheck-trace.ndjson")
+    p = vlib.run_vh(vh, ["c12", "replay-parcheck", "--in", inp, "--out", ptr, "--dir", scratch, "--seed", chk.seed], timeout=1200)
+    if p.returncode != 0:
+        raise vlib.Inconclusive("c12 replay-parcheck driver failed: " + (p.stderr or "")[-1500:])
+    from props.c04 import judge
+    obs = common.Observing(chk)
+    evp = judge(obs, scratch, ptr, "RunActionWithParallelCheck runs", spec="ParallelCheckTrace", spec_dir=SPEC)
+    chk.cov["parallel_check_runs"] = len(evp)
+    chk.cov["parallel_check_runs_with_scripted_instants_realised"] = sum(1 for e in evp if e["timingOk"])
+    # 5. growth: SafeScheduleAfter / SafeSchedule (Scheduler.tla): strict reading, the code as it is, and the named deviation between them
+    common.model_check(chk, scratch, SPEC, "Scheduler", "Scheduler_ascoded.cfg", "Scheduler as coded: one-shot and periodic calls x duration of f x cancellation instant", workers=2, fast="tiny")
+    rl = vlib.run_tlc(scratch, [SPEC], "Scheduler", "Scheduler_latecall.cfg", workers=2, timeout=300, fast="tiny", parse_behaviours=False)
+    vlib.tlc_must_pass(rl, "Scheduler_latecall")
+    chk.add_tlc("Scheduler as coded (must violate NoCallAfterCancel: a waiting tick may win over the done context)", rl)
+    if rl.violated != "NoCallAfterCancel":
+        raise vlib.Inconclusive("sensitivity self-test failed: Scheduler_latecall.cfg reported %s" % rl.violated)
+    sb = common.emit_behaviours(chk, scratch, SPEC, "Scheduler", "Scheduler_strict.cfg", "emit Scheduler scenarios (strict reading)", fast="tiny")
+    inp = os.path.join(scratch, "c12-sched.ndjson")
+    vlib.write_ndjson(inp, sb)
+    strc = os.path.join(scratch, "c12-sched-trace.ndjson")
+    p = vlib.run_vh(vh, ["c12", "replay-sched", "--in", inp, "--out", strc, "--dir", scratch, "--seed", chk.seed], timeout=1200)
+    if p.returncode != 0:
+        raise vlib.Inconclusive("c12 replay-sched driver failed: " + (p.stderr or "")[-1500:])
+    evs = judge(obs, scratch, strc, "SafeSchedule / SafeScheduleAfter runs", spec="SchedulerTrace", spec_dir=SPEC)
+    chk.cov["scheduler_runs"] = len(evs)
+    chk.cov["scheduler_runs_with_scripted_instants_realised"] = sum(1 for e in evs if e["timingOk"])
+    chk.cov["observations_outside_the_listed_property"] = obs.seen
     chk.cov["rule"] = ("behaviour = terminated run of the TLA+ runner models (order of deadline, completion, cancellation; action listening/"
                        "outcome), replayed with 25 ms spacing; sweep = completion instant across deadline +-2 ms under 0..16 busy goroutines; "
                        "store = concurrent Register/Cancel/Len histories; all non-trivial (every one exercises a distinct ordering or instant)")
